@@ -228,8 +228,9 @@ def explore(ctx, factor, bs):
     for form in fam[: ctx.pick(60, len(fam))]:
         one_case(ctx, L.render(form), tag="samename:")
     fam = list(L.long_list_family())
-    rng.shuffle(fam)
-    for form in fam[: ctx.pick(6, len(fam))]:
+    rest = fam[2:]
+    rng.shuffle(rest)
+    for form in fam[:2] + rest[: ctx.pick(4, len(rest))]:
         one_case(ctx, L.render(form), tag="longlist:")
     fam = list(L.unlabelled_family())
     rng.shuffle(fam)
